@@ -636,6 +636,22 @@ func provablyNonNilErr(v ssa.Value, at *ssa.BasicBlock, seen map[ssa.Value]bool)
 				if fo.Name() == "New" {
 					return true
 				}
+				if fo.Name() == "Join" && len(c.Call.Args) == 1 {
+					// errors.Join(a, b, …) is non-nil iff some argument is: look through the variadic slice literal
+					if sl, ok := c.Call.Args[0].(*ssa.Slice); ok {
+						if al, ok := sl.X.(*ssa.Alloc); ok && al.Referrers() != nil {
+							for _, rr := range *al.Referrers() {
+								if ia, ok := rr.(*ssa.IndexAddr); ok {
+									for _, st := range storesTo(ia) {
+										if provablyNonNilErr(st.Val, at, seen) {
+											return true
+										}
+									}
+								}
+							}
+						}
+					}
+				}
 			case "cosmossdk.io/errors":
 				switch fo.Name() {
 				case "Wrap", "Wrapf":
